@@ -99,7 +99,10 @@ def gen_mix(rng, depth=0):
             r = rng.random()
             if r < 0.03:
                 t = "70"
-            elif r < 0.08 and len(parts) == k - 1 and budget > 1:
+            elif r < 0.13 and len(parts) == k - 1 and budget > 1:
+                # the listed percentages add up to exactly 100: the base component gets 0 and vanishes
+                t = ("%.6f" % budget).rstrip("0").rstrip(".")
+            elif r < 0.18 and len(parts) == k - 1 and budget > 1:
                 # very unequal: leave the last component a remainder between 1e-9 and 1e-3 percent
                 t = ("%.9f" % (budget - 10 ** rng.uniform(-9, -3))).rstrip("0")
             parts.append((t, gen_child(rng, depth)))
